@@ -132,6 +132,45 @@ def r05_3(ctx, rep):
                "the caller's tree may only go to flatten()/deepcopy(); found: %s" % bad)
 
 
+@SPEC.rule(
+    "R05.4",
+    "premise of the reviewed CONST exception: symbol tables built while flattening are keyed by the declaration key "
+    "(dict.update / items() key), never by a Symbol's .name attribute read before it is assigned in the same loop — "
+    "tree-owned constant Symbols are renamed in place, so their .name is not stable across flatten calls",
+)
+def r05_4(ctx, rep):
+    R = "R05.4"
+    mod = ctx.module(TREE, R)
+    n = 0
+    for fn in [x for x in mod.body if isinstance(x, ast.FunctionDef)] + [m for c in mod.body if isinstance(c, ast.ClassDef) for m in c.body if isinstance(m, ast.FunctionDef)]:
+        site = "%s:%s" % (TREE, fn.name)
+        for c in calls(fn):
+            if isinstance(c.func, ast.Attribute) and c.func.attr in ("add_symbol", "remove_symbol"):
+                n += 1
+                rep.ob(R, site, "call " + norm(c)[:60], False,
+                       "add_symbol()/remove_symbol() key the table by the Symbol's current .name; for symbols that come from the tree this "
+                       "name was changed in place by an earlier flatten (use the dictionary key: symbols.update(...))")
+        for st in walk_local(fn):
+            if isinstance(st, ast.Assign) and isinstance(st.targets[0], ast.Subscript) and norm(st.targets[0].value).endswith(".symbols"):
+                key = st.targets[0].slice
+                if isinstance(key, ast.Attribute) and key.attr == "name" and isinstance(key.value, ast.Name):
+                    n += 1
+                    v = key.value.id
+                    # the name must have been (re)assigned in this function from a dictionary key: `<v>.name = ...` or alias of such
+                    aliases = {v}
+                    for a in walk_local(fn):
+                        if isinstance(a, ast.Assign) and isinstance(a.targets[0], ast.Name) and isinstance(a.value, ast.Name) and (a.targets[0].id in aliases or a.value.id in aliases):
+                            aliases |= {a.targets[0].id, a.value.id}
+                    assigned = any(isinstance(a, ast.Assign) and isinstance(a.targets[0], ast.Attribute) and a.targets[0].attr == "name"
+                                   and isinstance(a.targets[0].value, ast.Name) and a.targets[0].value.id in aliases for a in walk_local(fn))
+                    rep.ob(R, site, "store " + norm(st.targets[0])[:60], assigned,
+                           "the table is keyed by `%s.name` without that name being assigned from the declaration key in this function" % v)
+    fe = ctx.func(TREE, "flatten_extends", R)
+    merges = [norm(c) for c in calls(fe) if isinstance(c.func, ast.Attribute) and c.func.attr == "update" and norm(c.func.value).endswith(".symbols")]
+    rep.ob(R, TREE + ":flatten_extends", "symbols merged by key", len(merges) >= 2 and all(m.endswith(".symbols)") for m in merges),
+           "inherited and own symbols must be merged with symbols.update(<class>.symbols) (keeps the declaration keys); found %s" % merges)
+
+
 # -- seeded variants ---------------------------------------------------------
 from ._mut import replace_in_func  # noqa: E402
 
@@ -209,3 +248,19 @@ def _m_backend(mod):
         return False
 
     return mod if replace_in_func(mod, "generate", edit) else None
+
+
+@SPEC.mutant("inherited symbols added through add_symbol", TREE, "R05.4", "")
+def _m_addsym(mod):
+    def edit(fn):
+        for node in ast.walk(fn):
+            for fld in ("body", "orelse"):
+                b = getattr(node, fld, None)
+                if isinstance(b, list):
+                    for i, st in enumerate(b):
+                        if norm(st) == "extended_orig_class.symbols.update(c.symbols)":
+                            b[i] = ast.parse("for sym in c.symbols.values():\n    extended_orig_class.add_symbol(sym)").body[0]
+                            return True
+        return False
+
+    return mod if replace_in_func(mod, "flatten_extends", edit) else None
